@@ -20,7 +20,7 @@ From BB Require Import BN Brute SpaceFacts TrapFacts PercolateFacts AttractorFac
   Strict PetriNet Control Meta FilterFacts PetriNetFacts TrappistFacts DiagramStruct DiagramSem1 DiagramCache
   DiagramDepth DiagramComplete Termination ControlFacts MetaFacts Candidates StrictFacts MinExpandFacts CandidatesFacts SymbolicTest SymbolicTestFacts Signed ReductionFacts ControlFacts2 Main Blocks BlocksFacts ObsFacts OwnerFacts CandidatesTerm
   PartialOwner BlockMath BlockComplete ASeeds ASeedsFacts LogChecks SkipRule SkipRuleFacts Names NamesFacts Perm PermFacts SCC SCCFacts SCCStruct ControlFacts3 SCCTerm FilterSym Main2 StrategyFacts ControlFacts4 SkipRuleFacts2 SCCComplete SCCAttr BlockComplete2 ControlFacts5 Iso SkipSem ControlFacts6.
-From BB Require Import PyLib PyLibSd PySrcSdBase PySrcSd PySrcSdFacts PyLib PyLibSd PyLibCore PyLibSd2 PySrcSdBase PySrcSdMin PySrcSdMinFacts Candidates Blocks ASeeds PySrcSdASeeds PySrcSdASeedsFacts PySrcComplFacts PyLib PyLibSd PyLibCore PyLibSd2 PyLibScc PySrcSdBase PySrcSdScc PySrcSdSccFacts Control PyLibControl PySrcSdSccMain PySrcSdSccMainFacts PyLibBlocks PySrcSdBlocks PySrcApi PySrcEndToEndScc PyLib PyLibCore PySrcCore PySrcCoreFacts PySrcGetters PySrcGettersFacts.
+From BB Require Import PyLib PyLibSd PySrcSdBase PySrcSd PySrcSdFacts PyLib PyLibSd PyLibCore PyLibSd2 PySrcSdBase PySrcSdMin PySrcSdMinFacts Candidates Blocks ASeeds PySrcSdASeeds PySrcSdASeedsFacts PySrcComplFacts PyLib PyLibSd PyLibCore PyLibSd2 PyLibScc PySrcSdBase PySrcSdScc PySrcSdSccFacts Control PyLibControl PySrcSdSccMain PySrcSdSccMainFacts PyLibBlocks PySrcSdBlocks PySrcSdBlocksFacts PySrcApi PySrcEndToEndScc PySrcEndToEndBlocks PyLib PyLibCore PySrcCore PySrcCoreFacts PySrcGetters PySrcGettersFacts.
 
 (* translator tie: the function GENERATED from the current text of expand_source_SCCs.expand_source_SCCs (PySrcSdSccMain.v: root sources, BFS over the levels, recursion through the default expander into the sub-diagrams of the source SCCs, attachment by the generated attach_scc_subdiagram) does what the model's SCC.scc_main does on every diagram satisfying SCCTerm.SI, for every fuel, tape and nesting depth *)
 Theorem C03_source_expand_source_SCCs : forall (fuel : nat) (N : net) (cfg : config) (check_maa : bool) (d : sd) (tape : tape_t) (rec : nat), 1 <= max_motifs cfg -> SI N d -> let '(d', r, tape') := scc_main fuel N cfg check_maa d tape in scc_outcome (py_expand_source_SCCs fuel N cfg d tape check_maa rec) d' r tape'.
@@ -28,6 +28,23 @@ Proof. exact py_expand_source_SCCs_spec. Qed.
 
 Theorem C03_source_expand_source_SCCs_fresh : forall (fuel : nat) (N : net) (cfg : config) (check_maa : bool) (tape : tape_t), 1 <= max_motifs cfg -> let '(d', r, tape') := scc_main fuel N cfg check_maa (init N) tape in scc_outcome (py_expand_source_SCCs fuel N cfg (init N) tape check_maa 0) d' r tape'.
 Proof. exact py_expand_source_SCCs_fresh. Qed.
+
+(* translator tie for the DEFAULT strategy: the function GENERATED from the current text of expand_source_blocks.expand_source_blocks (PySrcSdBlocks.v: level loop with the visited set, size limits, source fast-forward, grouping of successors into blocks, minimal blocks, stable sort, clean-block search reading the is_clean tape) returns the diagram and result of the model's Blocks.expand_block on every well-formed diagram, for every fuel, option combination and tape *)
+Theorem C03_source_expand_source_blocks : forall (fuel : nat) (N : net) (cfg : config) (d : sd) (tape : list bool) (check_maa : bool) (size_limit : option nat) (opt_src exact : bool), SWF N d -> let '(d', r) := expand_block fuel N cfg d check_maa opt_src size_limit tape in blk_outcome (py_expand_source_blocks fuel N cfg d tape check_maa size_limit opt_src exact) d' r.
+Proof. exact py_expand_source_blocks_spec. Qed.
+
+Theorem C03_source_expand_source_blocks_fresh : forall (fuel : nat) (N : net) (cfg : config) (tape : list bool) (check_maa : bool) (size_limit : option nat) (opt_src exact : bool), let '(d', r) := expand_block fuel N cfg (init N) check_maa opt_src size_limit tape in blk_outcome (py_expand_source_blocks fuel N cfg (init N) tape check_maa size_limit opt_src exact) d' r.
+Proof. exact py_expand_source_blocks_fresh. Qed.
+
+Theorem C03_source_public_expand_block : forall (fuel : nat) (N : net) (cfg : config) (d : sd) (tape : list bool) (find_maa : bool) (size_limit : option nat) (opt_src exact : bool), SWF N d -> let '(d', r) := expand_block fuel N cfg d find_maa opt_src size_limit tape in blk_outcome (py_api_expand_block fuel N cfg d tape find_maa size_limit opt_src exact) d' r.
+Proof. exact py_api_expand_block_spec. Qed.
+
+(* C03 for the SOURCE TEXT of the default strategy: when the generated public method expand_block returns True (any options, any tape; fresh diagram or any plainly reached one), every minimal trap space is an expanded leaf *)
+Theorem C03_source_text_expand_block_complete : forall (fuel : nat) (N : net) (cfg : config) (tape : list bool) (maa : bool) (sz : option nat) (opt exact : bool) (d' : sd) (t : list bool), 1 <= max_motifs cfg -> py_api_expand_block fuel N cfg (init N) tape maa sz opt exact = SRet d' (true, t) -> MinFound N d'.
+Proof. exact py_api_expand_block_complete. Qed.
+
+Theorem C03_source_text_expand_block_complete_from : forall (fuel : nat) (N : net) (cfg : config) (d : sd) (tape : list bool) (maa : bool) (sz : option nat) (opt exact : bool) (d' : sd) (t : list bool), 1 <= max_motifs cfg -> PlainInv N d -> py_api_expand_block fuel N cfg d tape maa sz opt exact = SRet d' (true, t) -> MinFound N d'.
+Proof. exact py_api_expand_block_complete_from. Qed.
 
 (* the OBSERVATION of C03: SuccessionDiagram.minimal_trap_spaces(), pinned to its current text (PySrcGetters.v; its condition is the generated node_is_minimal), returns the model's minimal_ids *)
 Theorem C03_source_minimal_trap_spaces : forall (fuel : nat) (N : net) (cfg : config) (pnc : nat -> bool) (w : pyst), py_minimal_trap_spaces fuel N cfg pnc w = Some (minimal_ids (p_sd w)).
@@ -215,6 +232,11 @@ Proof. vm_compute. split; reflexivity. Qed.
 
 Print Assumptions C03_source_expand_source_SCCs.
 Print Assumptions C03_source_expand_source_SCCs_fresh.
+Print Assumptions C03_source_expand_source_blocks.
+Print Assumptions C03_source_expand_source_blocks_fresh.
+Print Assumptions C03_source_public_expand_block.
+Print Assumptions C03_source_text_expand_block_complete.
+Print Assumptions C03_source_text_expand_block_complete_from.
 Print Assumptions C03_source_minimal_trap_spaces.
 Print Assumptions C03_source_text_expand_scc_complete.
 Print Assumptions C03_source_text_expand_minimal_spaces_complete.
